@@ -447,7 +447,7 @@ theorem parts_ne_nil {c : Codec} {vals : List Str} {parts : List (List Nat)}
   | nil => exact hne rfl
   | cons v vs =>
     simp only [mapM'] at h
-    cases c.encode v <;> cases mapM' c.encode vs <;> simp at h
+    cases hv : c.encode v <;> cases hr : mapM' c.encode vs <;> simp [hv, hr] at h
 
 /-- the value list with the padding blank that the writer may have added to its last value -/
 def padLast (vals : List Str) (padded : Bool) : List Str :=
